@@ -83,6 +83,17 @@ var inits = map[string][]op{
 }
 var initOrder = []string{"empty", "cacheall", "sub-c0", "cached-e1"}
 
+// fullC0: consumer c0 is subscribed and its queue is full (a Receiver buffers 16 envelopes and
+// nobody reads): a further Put blocks on it until it is closed. Real Receivers only, and only
+// programs that close c0.
+func init() {
+	ops := []op{{"sub", "c0", "all"}}
+	for i := 0; i < 16; i++ {
+		ops = append(ops, op{"put", "e2", ""})
+	}
+	inits["full-c0"] = ops
+}
+
 var alphabet = []op{{"put", "e1", ""}, {"put", "e2", ""}, {"sub", "c1", "all"}, {"sub", "c2", "e1"}, {"release", "", "all"}, {"close", "c0", ""}, {"cache", "", "e1"}}
 
 // subClosed: subscribing a consumer that may already be closed (refused: must leave the cache alone)
@@ -161,6 +172,11 @@ func scenarios(res *report.Result) []schedrun.Scenario {
 		bound3 = 1
 	}
 	var out []schedrun.Scenario
+	for _, pr := range [][][]op{{{alphabet[0]}, {alphabet[5]}}, {{alphabet[0], alphabet[1]}, {alphabet[5]}}, {{alphabet[0]}, {alphabet[5], alphabet[2]}}} {
+		n := "receiver/full-c0/" + progName(pr)
+		table[n] = scenario{init: "full-c0", progs: pr, consumer: "receiver"}
+		out = append(out, schedrun.Scenario{Name: n, Mode: explore.Preempt, Bound: bound2, MaxSteps: 20000, Weight: 4})
+	}
 	for _, in := range initOrder {
 		for _, pr := range progs {
 			if !validProg(inits[in], pr) {
@@ -307,6 +323,9 @@ func body(sc scenario, obs *observation, race bool) {
 		for _, o := range inits[sc.init] {
 			do(-1, o)
 		}
+		if sc.init == "full-c0" && !race {
+			vsched.StartExploration() // filling the queue is set-up: one thread, the default schedule
+		}
 		done := make(chan struct{}, len(sc.progs))
 		for i, p := range sc.progs {
 			i, p := i, p
@@ -336,6 +355,12 @@ func body(sc scenario, obs *observation, race bool) {
 		sort.Strings(rnames) // never iterate a map while issuing visible operations
 		for _, n := range rnames {
 			rc := rcvs[n]
+			// a Next whose context is done already takes nothing away
+			cctx, ccancel := context.WithCancel(context.Background())
+			ccancel()
+			if e, err := rc.Next(cctx); err == nil {
+				obs.cons[n] = append(obs.cons[n], "RETURNED-DESPITE-DONE-CONTEXT:"+name(e))
+			}
 			// drain the real receiver: everything handed to it is readable exactly once
 			for {
 				ctx, cancel := context.WithTimeout(context.Background(), time.Second)
